@@ -711,6 +711,81 @@ def run(run):
     fallback(run, fx)
     lookupfirst(run, fx)
     segsearch(run, fx)
+    inst_ = 'format 4 lookup computes the glyph the table gives (interpreted on concrete small tables)'
+    f4_ = fx.one('graphite2::TtfUtil::CmapSubtable4Lookup')
+    try:
+        cases_, bad_ = glyph4(run, fx)
+        if bad_:
+            run.violated('PLANEROUTE', inst_, f4_.where(), bad_)
+        else:
+            run.held('PLANEROUTE', inst_, f4_.where(), '%d concrete executions' % cases_)
+    except AnalysisBroken as ex:
+        run.broken('PLANEROUTE', inst_, str(ex), f4_.where())
     agree(run, fx)
     cmapbound(run, fx)
     narrowread(run, fx)
+
+
+def glyph4(run, fx, rule='PLANEROUTE'):
+    """the glyph arithmetic of TtfUtil::CmapSubtable4Lookup after the segment is selected, by bounded concrete execution (rules/ordint.py):
+    format 4 tables of one or two segments (plus the 0xFFFF terminator), every combination of idDelta in {0, 5, -5, 0x8000} and
+    idRangeOffset in {0, into a glyph array right behind the offsets, a glyph array 0x8000 or more bytes away}, are laid out as the 16-bit
+    cells the format prescribes and the function is interpreted for every code point in and around the segments.  The answer is the
+    OpenType one: (c + idDelta) mod 65536 without a glyph array; with one, the cell at &idRangeOffset[i] + idRangeOffset/2 + (c - start),
+    plus idDelta mod 65536 unless the cell is 0; nothing outside the table is read."""
+    from . import ordint as O
+    import itertools
+    f4 = fx.one('graphite2::TtfUtil::CmapSubtable4Lookup')
+    T4 = 'graphite2::TtfUtil::Sfnt::CmapSubTableFormat4::'
+    TB = 'graphite2::TtfUtil::Sfnt::CmapSubTable::'
+    cases = 0
+    layouts = [[(10, 13)], [(10, 12), (20, 21)]]
+    deltas = (0, 5, 0xFFFB, 0x8000)
+    for segs in layouts:
+        n = len(segs) + 1
+        for ds in itertools.product(deltas, repeat=len(segs)):
+            for modes in itertools.product(('none', 'near', 'far'), repeat=len(segs)):
+                if modes.count('far') > 1:
+                    continue
+                ends = [b for a, b in segs] + [0xFFFF]
+                starts = [a for a, b in segs] + [0xFFFF]
+                dl = list(ds) + [1]
+                hdr = 7
+                ro_base = hdr + n + 1 + n + n          # index of idRangeOffset[0]
+                garr_base = ro_base + n
+                ro, garr, want = [0] * n, [], {}
+                for k, (a, b) in enumerate(segs):
+                    if modes[k] == 'none':
+                        for c in range(a, b + 1):
+                            want[c] = (c + ds[k]) & 0xFFFF
+                        continue
+                    if modes[k] == 'far':
+                        garr += [0] * (0x4000 - len(garr))       # the array starts 0x8000 bytes behind its offset cell
+                    pos = garr_base + len(garr)
+                    ro[k] = 2 * (pos - (ro_base + k))
+                    vals = [7 + 3 * j if (j % 3) != 2 else 0 for j in range(b - a + 1)]
+                    garr += vals
+                    for j, c in enumerate(range(a, b + 1)):
+                        want[c] = ((vals[j] + ds[k]) & 0xFFFF) if vals[j] else 0
+                if any(r_ > 0xFFFF for r_ in ro):
+                    continue
+                cells = [4, 0, 0, 2 * n, 0, 0, 0] + ends + [0] + starts + dl + ro + garr
+                cells[1] = 2 * len(cells)
+                flat = O.Vec(cells)
+                tab = O.Rec({TB + 'format': 4, TB + 'length': cells[1], TB + 'language': 0, T4 + 'seg_count_x2': 2 * n, T4 + 'search_range': 0, T4 + 'entry_selector': 0,
+                             T4 + 'range_shift': 0, T4 + 'end_code': O.It(flat, hdr), '#flat': flat})
+                for c in sorted(set(range(8, 24)) | {0, 0xFFFF}):
+                    it = O.Interp(fx)
+                    it.MAX_STEPS = 3000
+                    desc = 'segments %s with idDelta %s and glyph arrays %s, character %d' % (segs, [hex(d) for d in ds], list(modes), c)
+                    cases += 1
+                    try:
+                        r = it.call(f4, None, [O.Ptr(tab), c, 0])
+                    except O.Violation as v:
+                        return cases, '%s: %s (%s)' % (desc, v.what, v.loc)
+                    w = want.get(c, 0) if c != 0xFFFF else 0
+                    if c == 0xFFFF:
+                        continue            # the terminator segment maps U+FFFF to (0xFFFF + 1) mod 65536 = 0 in every conforming font
+                    if not isinstance(r, int) or (r & 0xFFFF) != w:
+                        return cases, '%s: the lookup answers %r, the table says glyph %d' % (desc, r, w)
+    return cases, None
